@@ -310,6 +310,14 @@ func genComp(r *Rand, scale int, allowBad bool) comp {
 	return c
 }
 
+// oddSpace inserts white space that is not the plain space (tab, newline, CR, NBSP, thin space,
+// form feed): it is not junk and must not be dropped, so the result is no text of the AST any more
+func oddSpace(r *Rand, s string) string {
+	ws := r.Pick([]string{"\t", "\n", "\r\n", "\u00a0", "\u2009", "\f", "\v"})
+	k := r.Intn(len(s) + 1)
+	return s[:k] + ws + s[k:]
+}
+
 func sprinkle(r *Rand, s string) string {
 	if !r.Chance(1, 3) {
 		return s
@@ -518,6 +526,8 @@ func genFrameRanges(r *Rand, n int, thorough, multi bool, emit func(string)) {
 			if m := mutate(r, txt); tame(m) {
 				emit(fsOp(r, m, "-"))
 			}
+		case r.Chance(1, 25):
+			emit(fsOp(r, oddSpace(r, txt), "-"))
 		case r.Chance(1, 40):
 			// a numeral that does not fit an int
 			big := []string{"9223372036854775808", "-9223372036854775809", "99999999999999999999"}
